@@ -93,6 +93,8 @@ def obs_class(case, obs, ideal):
             return "path-escaped-slash-decoded" if esc_slash else "path-escaping"
         if path + "/" in ipaths:
             return "path-trailing-slash-stripped"
+        if any(s["k"] in UNPARSABLE for s in case["srcs"]):
+            return "unparsable-not-skipped-path"     # the URL path of the next source was lost with the unparsable value
         return "path"
     if o.startswith("?"):
         return "other"
